@@ -19,9 +19,39 @@ import (
 )
 
 type schedCall struct {
-	Kind string `json:"kind"` // create | match | mismatch | update
+	Kind string `json:"kind"`          // create | match | mismatch | update
+	API  string `json:"api,omitempty"` // "" (snap) | json | yaml
 	Val  BS     `json:"value"`
 	Old  BS     `json:"old,omitempty"`
+}
+
+func (c schedCall) call(text BS) Call {
+	switch c.API {
+	case "json":
+		return Call{API: "json", Doc: text, Form: "string"}
+	case "yaml":
+		return Call{API: "yaml", Doc: text, Form: "string"}
+	}
+	return Call{API: "snap", Vals: []Val{strVal(string(text))}}
+}
+
+var schedBodies = map[string]string{}
+
+// schedBody: the body the code stores for the value (recorded alone, outside any scheduler session).
+func schedBody(c schedCall, text BS) BS {
+	if c.API == "" || c.API == "snap" {
+		return BS(refEscape(string(text)))
+	}
+	key := c.API + "\x00" + string(text)
+	if b, ok := schedBodies[key]; ok {
+		return BS(b)
+	}
+	b, err := storedBodyVia(c.call(text))
+	if err != nil {
+		panic(err)
+	}
+	schedBodies[key] = b
+	return BS(b)
 }
 
 type schedTest struct {
@@ -84,9 +114,9 @@ func (c schedCase) initialEntries() []Entry {
 		for k, call := range t.Calls {
 			switch call.Kind {
 			case "match":
-				es = append(es, Entry{ID: BS(entryID(t.Name, k+1)), Body: call.Val})
+				es = append(es, Entry{ID: BS(entryID(t.Name, k+1)), Body: schedBody(call, call.Val)})
 			case "mismatch", "update":
-				es = append(es, Entry{ID: BS(entryID(t.Name, k+1)), Body: call.Old})
+				es = append(es, Entry{ID: BS(entryID(t.Name, k+1)), Body: schedBody(call, call.Old)})
 			}
 		}
 	}
@@ -138,7 +168,14 @@ func runSched(c schedCase, pre []vsched.Preempt, record bool) (schedObs, error) 
 				case "mismatch":
 					cfg = cfgNo
 				}
-				cfg.MatchSnapshot(ft, string(call.Val))
+				switch call.API {
+				case "json":
+					cfg.MatchJSON(ft, string(call.Val))
+				case "yaml":
+					cfg.MatchYAML(ft, string(call.Val))
+				default:
+					cfg.MatchSnapshot(ft, string(call.Val))
+				}
 				errs, logs := ft.drain()
 				o := "?"
 				switch {
@@ -198,9 +235,9 @@ func judgeSched(c schedCase, obs schedObs) error {
 			id := entryID(t.Name, k+1)
 			switch call.Kind {
 			case "update":
-				want[findEntry(want, id)].Body = call.Val
+				want[findEntry(want, id)].Body = schedBody(call, call.Val)
 			case "create":
-				created[id] = string(call.Val)
+				created[id] = string(schedBody(call, call.Val))
 			}
 		}
 	}
@@ -305,12 +342,20 @@ func genSchedScenario(t *rapid.T) schedCase {
 			case shape == 2:
 				kind = "create"
 			}
-			v := rapid.SampledFrom(vals).Draw(t, "val")
-			call := schedCall{Kind: kind, Val: BS(v)}
+			api := rapid.SampledFrom([]string{"", "", "", "json", "yaml"}).Draw(t, "api")
+			pool := vals
+			switch api {
+			case "json":
+				pool = []string{`{"v":1}`, `{"v":2,"w":[1,2,3]}`, `[1,{"a":"b"}]`, `"str"`}
+			case "yaml":
+				pool = []string{"v: 1\n", "v: 2\nw:\n  - a\n  - b\n", "- x\n- y\n", "a: 1\n---\nb: 2\n"}
+			}
+			v := rapid.SampledFrom(pool).Draw(t, "val")
+			call := schedCall{Kind: kind, API: api, Val: BS(v)}
 			if kind == "mismatch" || kind == "update" {
-				old := rapid.SampledFrom(vals).Draw(t, "old")
+				old := rapid.SampledFrom(pool).Draw(t, "old")
 				if old == v {
-					old = v + " (old)"
+					old = pool[(indexOf(pool, v)+1)%len(pool)]
 				}
 				call.Old = BS(old)
 			}
@@ -478,4 +523,13 @@ func TestC06_Exhaustive3(t *testing.T) {
 			}
 		}
 	})
+}
+
+func indexOf(ss []string, s string) int {
+	for i, x := range ss {
+		if x == s {
+			return i
+		}
+	}
+	return 0
 }
